@@ -91,6 +91,16 @@ check("C16", "exploration",
       "Trusted: helper binary vl-svc (part of the harness). Debug-assertion builds only (std aborts on a doubly owned descriptor there); the release-profile double-close race is not searched. A constructor that does not return within 20 s in a fresh process, twice, is reported as a violation.",
       "differential testing across transports + configuration-matrix enumeration + proptest address strings", "DESIGN.md §4 C16")
 
+check("C13", "exploration",
+      "proptest-generated rounds of 2..24 (quick) / 64 (thorough) simultaneous clients on one in-process listen() server over unix path, abstract unix and TCP; every client pipelines its own tagged C01 request sequence in random segments with 0-5 ms pauses while up to 4 misbehaving peers (idle, silent, half a message, malformed) are held open. Each client's complete reply stream is judged by the C01 reply-stream checker against its own expectations (foreign tokens, missing or surplus replies fail). Blocking is reported only for the pattern 'stuck while the misbehaving peers are open, done once they are closed' seen in two consecutive runs.",
+      "OS schedules are sampled, not enumerated (the oracle is schedule-independent). Other stalls are inconclusive (exit 2). A panicking worker is detected when the pool is joined.",
+      "randomized concurrency stress (proptest rounds) with per-connection model-based oracle", "DESIGN.md §4 C13")
+
+check("C15", "exploration",
+      "47 fixed scenarios (idle_timeout 1/2 s and stop flag x three worker configurations x connection plans: none, just before the deadline, closing at the deadline, living across deadlines with a late joiner, a 2000-reply streaming call in flight when the flag is set) plus proptest-generated plans on a 50 ms grid, each with a private socket, 24 in parallel. One-sided bounds on a monotonic clock decide: timeout only with idle_timeout and not before last accepted connect + idle_timeout; Ok only with the flag and not before it; never before the close of a served connection; reply streams complete (incl. the streaming call); late joiner served while another connection is alive; socket path removed. Upper bounds (promptly/shortly) must be missed twice in a row.",
+      "Liveness is approximated by generous bounds with a repeat rule. Histories with a steady stream of connections faster than the 100 ms poll quantum are outside the quantifier (see DESIGN.md D12).",
+      "scenario-based property testing with time-bound oracles (fixed family + proptest plans)", "DESIGN.md §4 C15")
+
 ALL = ["C%02d" % i for i in range(1, 21)]
 
 NOT_BUILT_REASON = "check not built yet in this round (design in DESIGN.md §4); not claimed until it exists and is validated"
